@@ -393,7 +393,9 @@ def compute_dynamics_with_field(
         if step == 0:
             field = initial_field
         else:
-            field = compute_field(t, dt, previous_state_list, field, state_list)
+            # Heun step from the previous time step to this one
+            field = compute_field(start_time + (step - 1) * dt, dt,
+                                  previous_state_list, field, state_list)
         previous_state_list = state_list
         if record_all:
             system_states_list.append(state_list)
@@ -458,7 +460,8 @@ def compute_dynamics_with_field(
 
     system_states_list.append(final_state_list)
 
-    final_field = compute_field(t, dt, previous_state_list, field,
+    final_field = compute_field(start_time + (num_steps - 1) * dt, dt,
+                                previous_state_list, field,
                                 final_state_list)
     field_list.append(final_field)
 
